@@ -38,6 +38,9 @@ func (p sessProp) Run(in interface{}) Sx {
 	return sx
 }
 func (p sessProp) Input(in interface{}) Sx { return sessInputSx(in.(sessIn)) }
+func (p sessProp) InputObs(in interface{}, obs Sx) Sx {
+	return sessInputObsSx(in.(sessIn), obs)
+}
 
 func (p sessProp) Key(inp interface{}) (string, bool) {
 	in := inp.(sessIn)
@@ -113,6 +116,26 @@ func (p sessProp) Oracle(inp interface{}, obs Sx) (string, string) {
 			}
 			if secure && !in.tlsOutcome(c.Cert) {
 				return fmt.Sprintf("conn %d: request kind %d sent inside TLS although the certificate (%s, tlsmode %d, servername %q) must not verify", ci, k, c.Cert, in.TLSMode, in.ServerName), "unverified-tls"
+			}
+		}
+		// ---- C03: each request only after the previous step was answered (patient server: model-free lower bound:
+		// request j shows up only after at least one item of the answer to request j-1 has been sent; the exact
+		// bound -- all the items that confirm request j-1 -- is the model's, compared through the echoed count)
+		if in.Patient {
+			before := 0 // items in the answers to requests 0..j-2
+			for j, rq := range reqs {
+				if j >= 1 && j-1 < len(c.Groups) {
+					g := 0
+					for _, it := range c.Groups[j-1] {
+						if it.T != "wait" && it.T != "eof" {
+							g++
+						}
+					}
+					if len(rq.L) == 3 && g > 0 && rq.L[2].Z >= 0 && rq.L[2].Z < int64(before+1) {
+						return fmt.Sprintf("conn %d: request %d (kind %d) showed up when the server had sent %d items, i.e. before any part of the answer to request %d (items %d..%d)", ci, j, rq.L[0].L[0].Z, rq.L[2].Z, j-1, before+1, before+g), "request-before-confirmation"
+					}
+					before += g
+				}
 			}
 		}
 		if !reOrder.MatchString(word.String()) {
@@ -574,6 +597,27 @@ func genC03(r *rand.Rand, tier string) []interface{} {
 			conns = append(conns, sessConn{Groups: g2})
 		}
 		in.Conns = conns
+		out = append(out, in)
+	}
+	// 6. a patient server (answers item by item, notes how much it had sent when each request showed up):
+	//    good shapes, shapes with an unrelated stanza appended to one answer (the client may go on as soon as it has
+	//    read what confirms its request), and a deviation in the middle
+	for k := 0; k < 18*rounds; k++ {
+		in := randClient(r)
+		in.Tag = "patient"
+		in.Patient = true
+		sh := randShape(r, in)
+		g, _ := goodConn(in, sh, "", "", "sm-p"+fmt.Sprint(k), "true")
+		switch k % 3 {
+		case 1:
+			gi := r.Intn(len(g))
+			g[gi] = append(append([]sItem{}, g[gi]...), sItem{T: "message", N: 1})
+		case 2:
+			gi := r.Intn(len(g))
+			alpha := replyAlphabet("")
+			g = mutateKeep(g, gi, r.Intn(len(g[gi])), alpha[r.Intn(len(alpha))])
+		}
+		in.Conns = []sessConn{{Groups: g}}
 		out = append(out, in)
 	}
 	// 5. dial refused
